@@ -181,3 +181,14 @@ func runBatchRelease(m ReleaseManager, rollout *v1beta1.Rollout, rolloutId strin
 	klog.Infof("rollout(%s/%s) update batchRelease(%s) configuration to latest", rollout.Namespace, rollout.Name, util.DumpJSON(br))
 	return false, br, nil
 }
+
+// isStepUpgraded returns true if the step state is past StepUpgrade, i.e. the BatchRelease has
+// reported the pods of the current step ready.
+func isStepUpgraded(state v1beta1.CanaryStepState) bool {
+	switch state {
+	case v1beta1.CanaryStepStateTrafficRouting, v1beta1.CanaryStepStateMetricsAnalysis,
+		v1beta1.CanaryStepStatePaused, v1beta1.CanaryStepStateReady, v1beta1.CanaryStepStateCompleted:
+		return true
+	}
+	return false
+}
